@@ -21,9 +21,9 @@ RULE = ("base = generated pipeline accepted by the reference model (1..6 nodes);
         "position; each faulty variant is run traced (detail x output mode rotated in quick, full cross in thorough); "
         "distinct = hash of (variant nodes, detail, mode); non-trivial = the variant fails (reference) at the intended kind, "
         "or is a clean run with >= 2 nodes")
-SHARDS = {"quick": 8, "thorough": 16}
+SHARDS = {"quick": 8, "thorough": 48}
 SHARD_TIMEOUT = {"quick": 600, "thorough": 3000}
-N_BASES = {"quick": 16, "thorough": 40}   # per shard
+N_BASES = {"quick": 16, "thorough": 12}   # per shard
 DETAILS = ["hash", "repr", "context", "all", "hash,repr,context", "repr,context"]
 KINDS = ["clean", "processor_exception", "unresolvable_param", "type_gate", "undeclared_write",
          "construction_unknown_param", "construction_probe_without_key", "abort"]
